@@ -711,6 +711,13 @@ def no_tolerance_shortcut(chk, repo, pid):
                 tests.append(node.test)
             if isinstance(node, ast.comprehension):
                 tests.extend(node.ifs)
+            # a selection made element by element: np.where(test, a, b), x[test] = ..., x[test]
+            if isinstance(node, ast.Call) and (dotted(node.func) or '').split('.')[-1] in ('where', 'select', 'putmask', 'place', 'copyto', 'compress', 'extract') \
+                    and node.args:
+                tests.extend(node.args[:2] if (dotted(node.func) or '').split('.')[-1] in ('putmask', 'place') else node.args[:1])
+                tests.extend(k.value for k in node.keywords if k.arg in ('where', 'condition', 'mask'))
+            if isinstance(node, ast.Subscript):
+                tests.append(node.slice)
         for t in tests:
             hit = [x for x in ast.walk(t) if is_tol(x) or (isinstance(x, ast.Name) and x.id in tol_names)]
             if hit:
